@@ -9,5 +9,6 @@ let () =
        | "write" -> Mwrite.run_write (List.tl c)
        | "lex" -> Mlex.run_lex (List.tl c)
        | "read" -> Mread.run_read (List.tl c)
+       | "parse" -> Mparse.run_parse (List.tl c)
        | _ -> failwith "unknown mode");
       print_endline "end") cases
